@@ -171,14 +171,39 @@ def main():
             tg.write(other, first, random.Random(rng.randrange(1 << 30)), method)
             c2['prerun_argv'] = [other] + c2['argv'][1:]
             c2['history'] = 'second_call_same_process'
+        # (7) history: the INPUT path is re-used - the same process tags in.bam, the file is replaced by a BAM with reads on
+        #     other contigs (other contig set), and the same command runs again
+        for k, (method, mode) in enumerate([('nla', 'multi'), ('chic', 'single'), ('nla', 'multi'), ('qflag', 'multi')]):
+            first = tg.random_layout(rng, max_contigs=3, kinds=tg.SIMPLE_KINDS)
+            if k < 2:     # same header, reads on the other contigs
+                second = {'contigs': [dict(c, kinds=([] if c['kinds'] else ['pair', 'single'])) for c in first['contigs']],
+                          'star': ['unplaced_single']}
+                if not any(c['kinds'] for c in second['contigs']):
+                    second['contigs'][0]['kinds'] = ['single']
+                    first['contigs'][0]['kinds'] = []
+            else:         # another contig set
+                second = tg.random_layout(rng, max_contigs=5)
+            add(second, method, mode, 2, False)
+            c2 = cases[-1]
+            real = os.path.join(os.path.dirname(c2['inp']), 'second.bam')
+            os.replace(c2['inp'], real)
+            os.replace(c2['inp'] + '.bai', real + '.bai')
+            tg.write(c2['inp'], first, random.Random(rng.randrange(1 << 30)), method)
+            c2['prerun_argv'] = list(c2['argv'])
+            c2['swap_from'] = real
+            c2['history'] = 'input_path_reused_with_other_content'
         # (4) one contig with more fragments than the molecule iterator's ejection interval (check_eject_every = 10 000):
         #     molecules are ejected while reading, not only at the end
         for k in range(1 if tier == 'quick' else 3):
-            kinds = []
-            for _ in range(10_150 + 300 * k):
-                kinds.append(rng.choice(['single'] * 12 + ['pair', 'dup', 'nomotif', 'half', 'orphan_r2', 'pair_rev']))
+            def many(n):
+                return [rng.choice(['single'] * 10 + ['multi_umi', 'multi_umi', 'pair', 'dup', 'nomotif', 'half', 'orphan_r2', 'pair_rev',
+                                    'umi_bridge']) for _ in range(n)]
+            # the ejection check (every 10 000 fragments) fires after the contig change; k >= 1: a second check, again after a change;
+            # several molecules of one (cell, cut site) bucket with different UMIs leave the buffer in the same round
             lay = {'contigs': [{'name': 'chr2', 'len': 2500, 'big': False, 'kinds': ['pair']},
-                               {'name': 'chrDeep', 'len': 40_000_000, 'big': True, 'kinds': kinds}],
+                               {'name': 'chrDeep', 'len': 40_000_000, 'big': True, 'kinds': many(7000 + 3000 * k)},
+                               {'name': 'chrAfter', 'len': 30_000_000, 'big': True, 'kinds': many(1600 + 8000 * (k > 0))},
+                               {'name': 'chrLast', 'len': 99_999, 'big': False, 'kinds': ['multi_umi', 'single']}],
                    'star': ['unplaced_single'] * 2}
             bs = rng.randrange(1 << 30)
             method = ['nla', 'chic'][k % 2]
